@@ -20,7 +20,7 @@ def spec_rich(rng, N=None, D=None, datatype='I', log_channels=None, time_channel
         else:
             is_log = rng.random() < 0.5
         if is_log and names[c].lower() != 'time':
-            pne[str(c + 1)] = '%s,%s' % (rng.choice(['4', '4.0', '3', '4.5', '7.3', '2']), rng.choice(['1', '0', '1.0', '0.5']))
+            pne[str(c + 1)] = '%s,%s' % (rng.choice(['4', '4.0', '3', '4.5', '7.3', '2', '0.5', '0.75']), rng.choice(['1', '0', '1.0', '0.5', '0.0']))
         else:
             pne[str(c + 1)] = '0,0'
     extra = []
@@ -39,7 +39,7 @@ def spec_rich(rng, N=None, D=None, datatype='I', log_channels=None, time_channel
         frac = ['', '.50', ':30'][(D + N) % 3]
         extra += [['$BTIM', '12:00:01' + frac], ['$ETIM', '12:03:0%d%s' % (rng.randrange(10), frac)], ['$DATE', '02-OCT-2015']]
     if time_channel or rng.random() < 0.3:
-        extra.append(['$TIMESTEP', '0.01'])
+        extra.append(['$TIMESTEP', ['0.01', '0.01', '0', '0.0'][(D + N) % 4]])
     if datatype == 'I':
         events = [[rng.choice([0, r - 1, 1, r - 2]) if rng.random() < 0.2 else rng.randrange(0, r) for r in res] for _ in range(N)]
     else:
